@@ -28,6 +28,7 @@ func (m *MTProto) sendPacket(request tl.Object, expectedTypes ...reflect.Type) (
 		data  messages.Common
 		msgID = utils.GenerateMessageId()
 	)
+	verifGate("send.genid", request, msgID)
 
 	// adding types for parser if required
 	if len(expectedTypes) > 0 {
@@ -63,6 +64,7 @@ func (m *MTProto) sendPacket(request tl.Object, expectedTypes ...reflect.Type) (
 	if err != nil {
 		return nil, errors.Wrap(err, "sending request")
 	}
+	verifGate("send.written", request, msgID)
 
 	if m.encrypted {
 		// since we sending this message, we are incrementing the seqno BUT ONLY when we
@@ -81,6 +83,7 @@ func (m *MTProto) writeRPCResponse(msgID int, data tl.Object) error {
 		return errs.NotFound("msgID", strconv.Itoa(msgID))
 	}
 
+	verifGate("loop.deliver", msgID)
 	v <- data
 
 	m.responseChannels.Delete(msgID)
